@@ -36,8 +36,11 @@ func cartConfigs() []cartConfig {
 	for rc := uint8(0); rc <= 3; rc++ {
 		out = append(out, cartConfig{"mbc2", 0x06, rc, 0})
 	}
-	for rc := uint8(0); rc <= 6; rc++ {
+	for rc := uint8(0); rc <= 8; rc++ { // 4 and 8 MiB images too: the 7-bit bank register reaches their first 128 pages
 		for _, ram := range []uint8{0, 1, 2, 3, 4, 5} {
+			if rc > 6 && ram != 0 && ram != 3 && ram != 5 {
+				continue
+			}
 			t := uint8(0x13)
 			if ram == 0 {
 				t = 0x11
@@ -79,6 +82,34 @@ func pickCartConfig(r *engine.Rand, index int, tier string) cartConfig {
 // RAM enable/bank/read/write operations.
 func genCartHistory(r *engine.Rand, sc *engine.Scenario, c cartConfig, n int, ramFocus bool) {
 	sc.Cart = engine.CartSpec{Kind: c.kind, Type: c.typ, RomCode: c.romCode, RamCode: c.ramCode, Program: "18fe", FillSeed: r.U64()}
+	// every header type byte of the controller family (battery, rumble, timer variants)
+	switch c.kind {
+	case "mbc1":
+		if c.ramCode != 0 {
+			sc.Cart.Type = engine.Pick(r, []uint8{0x02, 0x03})
+		}
+	case "mbc2":
+		sc.Cart.Type = engine.Pick(r, []uint8{0x05, 0x06})
+	case "mbc3":
+		if c.ramCode != 0 {
+			sc.Cart.Type = engine.Pick(r, []uint8{0x10, 0x12, 0x13})
+		} else {
+			sc.Cart.Type = engine.Pick(r, []uint8{0x0f, 0x11})
+		}
+	case "mbc5":
+		if c.ramCode != 0 {
+			sc.Cart.Type = engine.Pick(r, []uint8{0x1a, 0x1b, 0x1d, 0x1e})
+		} else {
+			sc.Cart.Type = engine.Pick(r, []uint8{0x19, 0x1c})
+		}
+	}
+	if c.kind != "rom" && r.Chance(1, 4) {
+		sc.Cart.HeaderEveryPage = true
+	}
+	if r.Chance(1, 4) {
+		// the window is not looked at after every operation: several operations go by unobserved
+		sc.SetP("sparse_probe", int64(r.Range(3, 12)))
+	}
 	at := uint64(1)
 	ctl := func() uint16 {
 		// control addresses: region starts, ends, A8 set/clear, random
@@ -278,6 +309,7 @@ func executeCart(id string, sc *engine.Scenario, focus string) *engine.Result {
 		return true
 	}
 	ei := 0
+	sparse := int(sc.P("sparse_probe", 0))
 	ok := probe(0)
 	for m.N < sc.Cycles && ok {
 		for ei < len(sc.Events) && sc.Events[ei].At <= m.N && ok {
@@ -321,7 +353,7 @@ func executeCart(id string, sc *engine.Scenario, focus string) *engine.Result {
 					ok = false
 				}
 			}
-			if ok {
+			if ok && (sparse == 0 || ei%sparse == 0) {
 				ok = probe(m.N)
 			}
 			if ok && focus == "ram" && kind != "rom" && ei%37 == 0 {
